@@ -226,6 +226,137 @@ func runScenario(c *ShardCtx, sc scenario, mode string, bound int) {
 	c.Sample(map[string]any{"scenario": sc.Name, "mode": mode, "bound": bound, "schedules": ex.Executions, "points_default_schedule": len(x1.Points), "distinct_outcome_tuples": len(outcomes), "grammar": oneLine(text)})
 }
 
+// historySequences: the degenerate schedules - calls one after the other in one process, no
+// overlap - over a much larger alphabet of calls than the interleaving scenarios can afford:
+// EVERY ordered pair (and every triple over a reduced alphabet) of calls that differ in input
+// (matching, failing at several places, empty), in options (Memoize, Statistics, Debug, Recover(false),
+// ParseReader, every MaxExpressions budget from 1 to 40 - i.e. a call aborted at every possible
+// point, also inside lookahead predicates, loops and actions) and in what their blocks do (a
+// panicking action). The last call of every sequence must return exactly what it returns when
+// it is the first call of the process.
+func historySequences(c *ShardCtx, variant int) {
+	lit := peg.Lit
+	allOps := rtapi.OpShallow | rtapi.OpCloner | rtapi.OpGlobal
+	var g *peg.Grammar
+	gen := core.Gen{Optimize: variant&1 != 0}
+	if variant&2 == 0 {
+		// keywords, lookahead in both polarities, a loop, state, an action
+		g = &peg.Grammar{Rules: []*peg.Rule{
+			{Name: "S", Expr: peg.Action(0, peg.Seq(peg.Label("v", peg.Plus(peg.Choice(peg.Seq(peg.Not(peg.Ref("K")), peg.Ref("W")), peg.Ref("K"), peg.Seq(peg.And(lit("x")), peg.StateCode(0), lit("x"))))), peg.Not(peg.Any())))},
+			{Name: "K", Display: "keyword", Expr: peg.Seq(lit("ab"), peg.Not(peg.Cls(false, false, "a-c")))},
+			{Name: "W", Expr: peg.Action(0, peg.Plus(peg.Cls(false, false, "a-c")))},
+		}}
+	} else {
+		gen.LeftRec = true
+		g = &peg.Grammar{Rules: []*peg.Rule{
+			{Name: "S", Expr: peg.Action(0, peg.Seq(peg.Label("v", peg.Ref("E")), peg.Not(peg.Any())))},
+			{Name: "E", Expr: peg.Choice(peg.Action(0, peg.Seq(peg.Label("l", peg.Ref("E")), lit("x"), peg.Not(lit("x")), peg.Label("r", peg.Ref("T")))), peg.Ref("T"))},
+			{Name: "T", Expr: peg.Seq(peg.StateCode(0), peg.Plus(peg.Cls(false, false, "a-c")))},
+		}}
+	}
+	peg.Renumber(g, 1)
+	peg.AssignArgs(g)
+	text := peg.Print(g, nil)
+	b := buildOrCount(c, text, gen)
+	if b == nil {
+		panic(&core.HarnessError{Msg: "history grammar rejected"})
+	}
+	c.Res.Grammars++
+	plain := map[int]*rtapi.Block{}
+	boom := map[int]*rtapi.Block{}
+	for _, blk := range g.Blocks() {
+		plain[blk.ID] = &rtapi.Block{Ops: allOps}
+		boom[blk.ID] = &rtapi.Block{Ops: allOps}
+		if blk.K == peg.KAction && blk.ID != 1 {
+			boom[blk.ID].Panic, boom[blk.ID].Err = 1, "boom"
+		}
+	}
+	type hcall struct {
+		in     string
+		o      rtapi.RunOpts
+		script map[int]*rtapi.Block
+	}
+	var calls, small []hcall
+	inputs := []string{"abc", "ab cx", "cabxab", "", "q", "abq", "cxa"}
+	if gen.LeftRec {
+		inputs = []string{"axb", "axbxc", "a", "", "q", "axx", "axbq"}
+	}
+	for k, in := range inputs {
+		calls = append(calls, hcall{in, rtapi.RunOpts{MaxExpr: 4000}, plain}, hcall{in, rtapi.RunOpts{MaxExpr: 4000, InitState: true, UseReader: true}, plain})
+		if k < 3 {
+			small = append(small, hcall{in, rtapi.RunOpts{MaxExpr: 4000}, plain})
+		}
+		if b.Flags.HasMemo() {
+			calls = append(calls, hcall{in, rtapi.RunOpts{MaxExpr: 4000, Memoize: true, Statistics: true}, plain}, hcall{in, rtapi.RunOpts{MaxExpr: 4000, Debug: true}, plain})
+		}
+	}
+	calls = append(calls, hcall{inputs[0], rtapi.RunOpts{MaxExpr: 4000}, boom}, hcall{inputs[2], rtapi.RunOpts{MaxExpr: 4000, NoRecover: true}, boom}, hcall{"ab\xffc", rtapi.RunOpts{MaxExpr: 4000}, plain}, hcall{"ab\xffc", rtapi.RunOpts{MaxExpr: 4000, AllowInvalid: true}, plain})
+	small = append(small, hcall{inputs[4], rtapi.RunOpts{MaxExpr: 4000}, plain}, hcall{inputs[5], rtapi.RunOpts{MaxExpr: 4000}, plain}, hcall{inputs[0], rtapi.RunOpts{MaxExpr: 4000}, boom})
+	for n := uint64(1); n <= 40; n++ {
+		calls = append(calls, hcall{inputs[2], rtapi.RunOpts{MaxExpr: n}, plain})
+		if n%3 == 0 {
+			calls = append(calls, hcall{inputs[2], rtapi.RunOpts{MaxExpr: n, NoRecover: true}, plain})
+			small = append(small, hcall{inputs[2], rtapi.RunOpts{MaxExpr: n}, plain})
+		}
+	}
+	alone := func(cl hcall) string {
+		o := cl.o
+		return obsString(b.Run([]byte(cl.in), &o, cl.script))
+	}
+	solo := make([]string, len(calls))
+	for i, cl := range calls {
+		solo[i] = alone(cl)
+	}
+	outcomes := map[string]bool{}
+	seq := func(cs []hcall, want string) {
+		var last *rtapi.Obs
+		var desc []string
+		for k, cl := range cs {
+			o := cl.o
+			if k == 0 {
+				last = b.Run([]byte(cl.in), &o, cl.script)
+			} else {
+				last = b.RunWarm([]byte(cl.in), &o, cl.script)
+			}
+			desc = append(desc, fmt.Sprintf("Parse(%q, %s%s)", cl.in, optsString(&cl.o), map[bool]string{true: ", an action panics", false: ""}[fmt.Sprint(cl.script) == fmt.Sprint(boom)]))
+		}
+		c.Res.Evaluations++
+		c.Res.Nontrivial++
+		c.Res.States += int64(len(cs))
+		c.Res.Transitions += int64(len(cs))
+		got := obsString(last)
+		outcomes[got] = true
+		if got != want {
+			c.Report(Violation{Desc: fmt.Sprintf("the last call of the sequence %s returns something else than the same call as the first call of a process:\n   in sequence: %s\n   alone:       %s", strings.Join(desc, " ; "), got, want),
+				Grammar: text, Gen: gen.String(), Input: cs[len(cs)-1].in, Opts: strings.Join(desc, " ; "), Extra: map[string]any{"scenario": "history-sequences", "variant": variant}}, "")
+		}
+	}
+	for i := range calls {
+		if c.Expired("history sequences") {
+			return
+		}
+		for j := range calls {
+			seq([]hcall{calls[i], calls[j]}, solo[j])
+		}
+	}
+	ssolo := make([]string, len(small))
+	for i, cl := range small {
+		ssolo[i] = alone(cl)
+	}
+	for i := range small {
+		if c.Expired("history sequences") {
+			return
+		}
+		for j := range small {
+			for k := range small {
+				seq([]hcall{small[i], small[j], small[k]}, ssolo[k])
+			}
+		}
+	}
+	c.Res.Counters[fmt.Sprintf("history_sequences_variant%d_calls", variant)] = int64(len(calls))
+	c.Sample(map[string]any{"scenario": "history-sequences", "variant": variant, "grammar": oneLine(text), "flags": gen.String(), "calls": len(calls), "pairs": len(calls) * len(calls), "triples": len(small) * len(small) * len(small), "distinct_last_observations": len(outcomes)})
+}
+
 func runC18(c *ShardCtx) {
 	scs := scenarios()
 	type job struct {
@@ -257,6 +388,12 @@ func runC18(c *ShardCtx) {
 		}
 		runScenario(c, j.sc, j.mode, j.bound)
 		c.Res.Grammars++
+	}
+	// sequential histories (four grammar / flag variants), on the shards that come after the jobs
+	for v := 0; v < 4; v++ {
+		if (len(jobs)+v)%c.N == c.Shard {
+			historySequences(c, v)
+		}
 	}
 }
 
